@@ -55,10 +55,10 @@ WORKERS = {"quick": 1, "thorough": 14}
 
 def gen_cases(ctx):
     rng = ctx.rng
-    for i in range(ctx.scale(3500, 90000)):
+    for i in range(ctx.scale(3500, 540000)):
         inst = gen.gen_instance(rng, None, max_jobs=rng.choice([2, 3, 4, 5]), max_machines=rng.choice([2, 3, 4, 5]))
         yield {"kind": "views", "instance": inst, "seed": rng.randrange(2**31)}
-    for i in range(ctx.scale(3500, 90000)):
+    for i in range(ctx.scale(3500, 540000)):
         inst = gen.gen_instance(rng, rng.choice(gen.NONFLEX_CLASSES), max_jobs=rng.choice([2, 3, 4]),
                                 max_machines=rng.choice([2, 3, 4]))
         yield {"kind": "sequences", "instance": inst, "seed": rng.randrange(2**31)}
@@ -68,7 +68,7 @@ def gen_cases(ctx):
     for i, n in enumerate(names):
         if i % ctx.nshards == ctx.shard:
             yield {"kind": "benchmark_views", "name": n, "seed": 0, "instance": {"cls": "benchmark"}}
-    for i in range(ctx.scale(210, 5000)):
+    for i in range(ctx.scale(210, 30000)):
         inst = gen.gen_instance(rng, None, max_jobs=3, max_machines=3)
         yield {"kind": "immutability", "instance": inst, "seed": rng.randrange(2**31),
                "consumer": i % 7}
